@@ -55,6 +55,9 @@ pub fn compress_fastest<M: Matcher>(
             // Write the header, then the block
             header.serialize(output);
             output.extend_from_slice(state.matcher.get_last_space());
+            // The decoder never sees the discarded compressed block, so it does not know
+            // a Huffman table that block may have introduced
+            state.last_huff_table = None;
         } else {
             let header = BlockHeader {
                 last_block,
